@@ -43,9 +43,8 @@ func c11R3(c *Ctx, rule string) {
 				okWhere = true
 			}
 		}
-		if strings.HasPrefix(where, "(*lang.Parser).rewriteCompundAssingment at ") {
+		if rw := findCompoundRewriter(p, m); rw != nil && strings.HasPrefix(where, shortName(rw)+" at ") {
 			// the helper is only called from validating parselets
-			rw := p.LangFunc("(*Parser).rewriteCompundAssingment")
 			okWhere = rw != nil
 			if rw != nil {
 				for _, cs := range p.CallSitesOf(rw) {
